@@ -1,39 +1,37 @@
 /-
 Helper lemmas for C14 (serializer / reader).  Core Lean only.
+The proofs are in `MdVerif/Lemmas/SerializerEsc.lean` (strings) and `MdVerif/Lemmas/SerializerTree.lean` (trees).
 -/
 import MdVerif.Spec.Reader
+import MdVerif.Lemmas.SerializerEsc
+import MdVerif.Lemmas.SerializerTree
 
 namespace MdVerif.Ser
 open Py
 
-theorem onepass_cdata (s : Str) : escCdata s = esc1 false false s := by
-  sorry
+theorem onepass_cdata (s : Str) : escCdata s = esc1 false false s := onepass_cdata' s
 
-theorem onepass_attr (s : Str) : escAttrHtml s = esc1 true false s := by
-  sorry
+theorem onepass_attr (s : Str) : escAttrHtml s = esc1 true false s := onepass_attr' s
 
-theorem onepass_attrib (s : Str) : escAttrib s = esc1 true true s := by
-  sorry
+theorem onepass_attrib (s : Str) : escAttrib s = esc1 true true s := onepass_attrib' s
 
 /-- the strict reader accepts every escaped text and reads what the tolerant reader reads in the source -/
-theorem strict_esc1 (m : Mode) (s : Str) : strict m 0 (esc1 m.quot m.nl s) = some (lenient m 0 s) := by
-  sorry
+theorem strict_esc1 (m : Mode) (s : Str) : strict m 0 (esc1 m.quot m.nl s) = some (lenient m 0 s) :=
+  strict_esc1' m s
 
-theorem esc1_no_markup (q n : Bool) (s : Str) : ∀ c ∈ esc1 q n s, c ≠ '<' ∧ c ≠ '>' ∧ (q = true → c ≠ '"') := by
-  sorry
+theorem esc1_no_markup (q n : Bool) (s : Str) : ∀ c ∈ esc1 q n s, c ≠ '<' ∧ c ≠ '>' ∧ (q = true → c ≠ '"') :=
+  esc1_no_markup' q n s
 
 theorem esc1_entity (q n : Bool) (r : Str) (k : Nat) (h : entLen r = some k) :
-    esc1 q n ('&' :: r) = '&' :: r.take k ++ esc1 q n (r.drop k) := by
-  sorry
+    esc1 q n ('&' :: r) = '&' :: r.take k ++ esc1 q n (r.drop k) := esc1_entity' q n r k h
 
-theorem esc1_idem (q n : Bool) (s : Str) : esc1 q n (esc1 q n s) = esc1 q n s := by
-  sorry
+theorem esc1_idem (q n : Bool) (s : Str) : esc1 q n (esc1 q n s) = esc1 q n s :=
+  esc1_idem' q n s.length s (Nat.le_refl _)
 
-theorem lenient_plain (m : Mode) (s : Str) (h : ∀ c ∈ s, c ≠ '&') : lenient m 0 s = s.map Tok.ch := by
-  sorry
+theorem lenient_plain (m : Mode) (s : Str) (h : ∀ c ∈ s, c ≠ '&') : lenient m 0 s = s.map Tok.ch :=
+  lenient_plain' m s h
 
 theorem roundtrip (fmt : Fmt) (t : Node) (h : WFTree t = true) :
-    readForest fmt (serialize fmt t) = some (canon t) := by
-  sorry
+    readForest fmt (serialize fmt t) = some (canon t) := roundtrip' fmt t h
 
 end MdVerif.Ser
